@@ -116,9 +116,11 @@ Theorem C05_create_decomposition : forall cfg perm a,
             end)) (fun _ =>
   bindr (swrapped cfg "Create" a3) (fun _ => ok (a3, tt))))).
 Proof. exact create_attribute. Qed.
+(* for EVERY Create, with or without an actor property (absent: A = [], and the property is created when there is something to
+   put into it - fix F25); last clause: when the objects contribute no id the activity lacks, the actor member is untouched *)
 Theorem C05_attribution : forall perm, (forall l x, In x (perm l) <-> In x l) ->
-  forall a m al a2 A, a = JObj m ->
-  elems "actor" a = Some al -> no_arrays (elems0 "actor" a) = true ->
+  forall a m a2 A, a = JObj m ->
+  no_arrays (elems0 "actor" a) = true ->
   no_arrays (elems0 "object" a) = true ->
   Forall (fun e => no_arrays (elems0 "attributedTo" e) = true) (elems0 "object" a) ->
   attribute perm a = Ok a2 -> ids_of "actor" a = Ok A ->
@@ -126,15 +128,24 @@ Theorem C05_attribution : forall perm, (forall l x, In x (perm l) <-> In x l) ->
      forall x, In x A2 <-> In x A \/ exists e t ids, In e (elems0 "object" a) /\ e_type "object" e = Some t /\ vhas t "attributedTo" = true /\
                                                    ids_of "attributedTo" t = Ok ids /\ In x ids) /\
   Forall2 (obj_attr_rel A) (elems0 "object" a) (elems0 "object" a2) /\
-  (forall q, q <> "actor" -> q <> "object" -> jget q a2 = jget q a).
+  (forall q, q <> "actor" -> q <> "object" -> jget q a2 = jget q a) /\
+  ((forall e t ids x, In e (elems0 "object" a) -> e_type "object" e = Some t -> vhas t "attributedTo" = true ->
+                      ids_of "attributedTo" t = Ok ids -> In x ids -> In x A) -> jget "actor" a2 = jget "actor" a).
 Proof. exact attribution_unions. Qed.
+(* a Create WITHOUT an actor property: its actors afterwards are exactly the attributedTo ids of its objects; when the objects
+   have none, it still has no actor property *)
 Theorem C05_attribution_no_actor : forall perm, (forall l x, In x (perm l) <-> In x l) ->
   forall a m a2, a = JObj m -> elems "actor" a = None ->
   no_arrays (elems0 "object" a) = true ->
   Forall (fun e => no_arrays (elems0 "attributedTo" e) = true) (elems0 "object" a) ->
   attribute perm a = Ok a2 ->
+  (exists A2, ids_of "actor" a2 = Ok A2 /\
+     forall x, In x A2 <-> exists e t ids, In e (elems0 "object" a) /\ e_type "object" e = Some t /\ vhas t "attributedTo" = true /\
+                                         ids_of "attributedTo" t = Ok ids /\ In x ids) /\
   Forall2 (obj_attr_rel []) (elems0 "object" a) (elems0 "object" a2) /\
-  (forall q, q <> "object" -> jget q a2 = jget q a).
+  (forall q, q <> "actor" -> q <> "object" -> jget q a2 = jget q a) /\
+  ((forall e t ids, In e (elems0 "object" a) -> e_type "object" e = Some t -> vhas t "attributedTo" = true ->
+                    ids_of "attributedTo" t = Ok ids -> ids = []) -> jget "actor" a2 = None).
 Proof. exact attribution_no_actor. Qed.
 
 Print Assumptions C05_post_outbox.
